@@ -131,8 +131,10 @@ func (svg *SVGImage) drawNode(dst backend.Canvas, node *svgNode, dims drawingDim
 		if isText && text.isText {
 			textAnchor = text.textAnchor
 			if len(node.children) != 0 && text.text == "" {
-				child, _ := node.children[0].graphicContent.(*textSpan)
-				textAnchor = child.textAnchor
+				// (the first child may be something else than a text span)
+				if child, ok := node.children[0].graphicContent.(*textSpan); ok {
+					textAnchor = child.textAnchor
+				}
 			}
 
 			if textAnchor == middle || textAnchor == end {
